@@ -248,16 +248,17 @@ func (s *bFiller) Fill(w io.Writer, stat decor.Statistics) error {
 			refWidth += curWidth
 			fallthrough
 		default:
-			for w := s.components[iFiller].width; curWidth-fillCount >= w; fillCount += w {
+			// zero width component never fills anything, don't loop forever
+			for w := s.components[iFiller].width; w > 0 && curWidth-fillCount >= w; fillCount += w {
 				filling = append(filling, s.components[iFiller].bytes...)
 			}
-			for w := s.components[iRefiller].width; refWidth-fillCount >= w; fillCount += w {
+			for w := s.components[iRefiller].width; w > 0 && refWidth-fillCount >= w; fillCount += w {
 				refilling = append(refilling, s.components[iRefiller].bytes...)
 			}
 		}
 	}
 
-	for w := s.components[iPadding].width; width-fillCount >= w; fillCount += w {
+	for w := s.components[iPadding].width; w > 0 && width-fillCount >= w; fillCount += w {
 		padding = append(padding, s.components[iPadding].bytes...)
 	}
 
